@@ -176,8 +176,11 @@ def check_invariants_method(prog, e, segs, fn, ty, inv, rep, keybase):
                 for ev in s.state.events:
                     if ev[0] == 'store' and ev[1] == place and ev[2][0] == 'adt' and ev[2][2] == 'Some':
                         rv = ts.of_value(e, s.state, ev[2], s.state.facts)
-                        if rv.maybe_empty:
+                        sm = ts.call_summary(e, ev[2])
+                        if (sm.some_empty if sm is not None else rv.maybe_empty):
                             bad.append('%s may be stored as Some(empty list) (single representation of "no %s" is None)' % (fname, fname))
+                    elif ev[0] == 'store' and ev[1] == place and ts.call_summary(e, ev[2]) is not None and ts.call_summary(e, ev[2]).some_empty:
+                        bad.append('%s may be stored as Some(empty list) by %s (single representation of "no %s" is None)' % (fname, ev[2][1].split('::')[-1], fname))
             # searches on the field require sortedness: holds on entry by assumption; check no unordered state before a search
             upto = []
             for ev in (s.state.events if not has_loops else s.events):
@@ -242,7 +245,11 @@ def check_constructor(prog, fn, ty, allinv, rep, exempt):
                 r = ts.of_value(e, s.state, fv, s.state.facts)
                 if ts.worse(r.state, req):
                     bad.append('%s is built %s (required: %s): %s' % (fname, ts.NAMES[r.state], ts.NAMES[req], ' -> '.join(r.why)))
-                if nonempty and fv[0] == 'adt' and fv[2] == 'Some' and r.maybe_empty:
+                sm = ts.call_summary(e, fv)
+                if nonempty and sm is not None:
+                    if sm.some_empty:
+                        bad.append('%s may be built as Some(empty list)' % fname)
+                elif nonempty and fv[0] == 'adt' and fv[2] == 'Some' and r.maybe_empty:
                     bad.append('%s may be built as Some(empty list)' % fname)
     rep.ob(key, 'TS-CTOR', fn, b['span'], '%s returns a %s whose ordered collections are sorted%s' % (validators.short_fn(fn), ty, ' and duplicate-free' if any(i[2] == ts.SD for i in inv) else ''),
            not bad, detail='\n'.join(sorted(set(bad))[:4]), how='%d field values at %d exits' % (n, len([s for s in segs if s.kind == 'return'])))
